@@ -16,7 +16,13 @@ TEXT = {
                    "expressions (incl. ones sensitive to NumPy's floating-point error mode) must give, "
                    "on every instance and at any time, the outcome recorded on a pristine instance at "
                    "the start of the run (absolute reference against state shared by all instances). "
-                   "Seven configurations incl. an atom factory returning several classes.",
+                   "Ten configurations incl. an atom factory returning several classes, NumPy-array atoms "
+                   "and a table extended by user-defined parenthesis operators (own separator, own "
+                   "brackets); expressions nested up to 120 deep, numbers cut off at their exponent, "
+                   "Expression objects as arguments. A third reference besides the fresh instance and the "
+                   "per-run record: every canary's outcome in a process of its own that has solved nothing "
+                   "else, computed before the search starts (catches state shared by all instances that "
+                   "an earlier run of the same worker has already set).",
         level_note="Trusted: a fresh instance is the reference (history must not matter, by the "
                    "property); comparison is on repr of value / exception type and args. Sampled "
                    "histories, not all.",
@@ -64,7 +70,9 @@ TEXT = {
                    "constructor by the caller must stay untouched. An in-place method that raises (to() with "
                    "a quantity target whose magnitude is zero, an array of another shape or a Decimal; "
                    "rebase() of a product whose custom unit's scope has ended; refused conversions) must "
-                   "leave its own object as it was, too.",
+                   "leave its own object as it was, too. The caller writes into arrays it owns (the one a "
+                   "quantity was built from, the one value() handed out): only the owner of that storage "
+                   "may change; members are also taken from a long-lived Unit() accessor.",
         level_note="Trusted: NumPy equality; a float that became an equal Decimal is not counted as a "
                    "change. Sampled histories, not all.",
         design_ref="4 (C07)"),
@@ -84,7 +92,10 @@ TEXT = {
                    "(UnitEnvironment scopes whose symbols recur with other magnitudes, with inner scopes that "
                    "are refused) are included, as are conversions into multiples of another live quantity "
                    "(to(Quantity)): when such a call fails at its last step the quantity must be the one "
-                   "it was.",
+                   "it was. Also: unit objects instead of unit texts as targets of to() and value(), "
+                   "exponents written with a negative denominator, Decimal scalars, arrays holding zeros of "
+                   "either sign in reciprocal queries, rebase() of a member (its value in its old unit "
+                   "must be what the ledger says), buffers the caller reuses after building a quantity.",
         level_note="Only the clauses about one mutable object through a history are decided; the factor "
                    "formula over all unit triples is sampled as a by-product, not covered. Magnitudes kept "
                    "within 1e+-290; offset/logarithmic units excluded by the statement; bare number to "
@@ -126,7 +137,8 @@ TEXT = {
                    "model predicts, statement by statement, the value in the definition's unit (0, "
                    "negatives, false, none included); faults are the four aborting assignments (other data "
                    "type, unit of another dimension or unit on a unit-less node, write to a constant, "
-                   "declared node left without value). Oracles: commit/abort as predicted, names in order "
+                   "declared node left without value); rounds that define units only, custom units as the "
+                   "*target* of a conversion, none assigned last to a declared node that has had a value. Oracles: commit/abort as predicted, names in order "
                    "of first appearance, type class / width / sign, unit and value (1e-12 relative).",
         level_note="Width changes, modifications of never-defined nodes, empty strings, none for array "
                    "nodes or with a unit, integer nodes converted by non-integer factors and a declared "
@@ -147,7 +159,10 @@ TEXT = {
                    "imported copies of constrained nodes (and property lines attached to a copy only); "
                    "typed re-definitions restating looser bounds; conditions that cannot be evaluated "
                    "(reference to a missing node, bound of another dimension) must make the parse fail; "
-                   "a malformed first text refused on the same parser object before the real text. Oracles: the model's commit/abort verdict in both directions (reject and "
+                   "a malformed first text refused on the same parser object before the real text; "
+                   "conditions whose bound is another node (re-evaluated when only that node changes in a "
+                   "chained round); values exactly on an open boundary and none on a constrained node (both "
+                   "refused); user functions that convert or extend what they are handed. Oracles: the model's commit/abort verdict in both directions (reject and "
                    "accept), and an independent evaluator re-checks every returned environment against "
                    "all constraints its nodes carry, whatever the model predicted.",
         level_note="Values within 1e-3 relative of a boundary without sitting on it are treated as "
@@ -167,7 +182,9 @@ TEXT = {
                    "node-to-node comparison steps; registered callback functions (constant, reading a "
                    "stored node, scribbling over their data, raising). Faults: requests selecting none / "
                    "several / {?} outside a condition / unknown source / missing file / a host adopting a "
-                   "unit of another dimension (must abort; an empty import may abort or add nothing), ENOENT / EACCES / EIO / undecodable "
+                   "unit of another dimension (must abort; units sized by reference ($unit u = {?a}), "
+                   "temperatures with offset conversion (0 Cel is 273.15 K), 2-D slices as element, row "
+                   "and column; an empty import may abort or add nothing), ENOENT / EACCES / EIO / undecodable "
                    "on a chosen open, file content replaced between rounds. Oracles: values, units, types "
                    "and paths as the model predicts; after every round every earlier environment "
                    "(including the base) and its custom units report exactly their commit-time snapshot "
